@@ -12,6 +12,7 @@ import (
 	"math"
 	"os"
 	"reflect"
+	"runtime"
 	"strings"
 	"testing"
 	"unsafe"
@@ -264,6 +265,29 @@ func AllocCount() int { return 0 }
 // Allocs is the number of heap allocations one call of f performs, in steady
 // state (natively measured with testing.AllocsPerRun).
 func Allocs(f func()) int { return int(testing.AllocsPerRun(20, f)) }
+
+// AllocsAfter is the number of heap allocations one call of f performs when it
+// runs right after pre, in steady state; pre's own allocations are not
+// counted, what pre leaves behind (for instance in a sync.Pool) is. Natively
+// it is measured like testing.AllocsPerRun does (one P, malloc counter), around
+// f only.
+func AllocsAfter(pre, f func()) int {
+	defer runtime.GOMAXPROCS(runtime.GOMAXPROCS(1))
+	pre()
+	f()
+	const runs = 20
+	var ms runtime.MemStats
+	total := uint64(0)
+	for i := 0; i < runs; i++ {
+		pre()
+		runtime.ReadMemStats(&ms)
+		a := ms.Mallocs
+		f()
+		runtime.ReadMemStats(&ms)
+		total += ms.Mallocs - a
+	}
+	return int(total / runs)
+}
 
 // PrimePool is a no-op for the executor (which models sync.Pool.Get as
 // returning arbitrary contents). Natively, during a replay, it leaves in the
